@@ -243,6 +243,8 @@ class Interp(Engine):
             if isinstance(base.cls, type) and hasattr(base.cls, attr):
                 return self.class_attr(base, base.cls, attr)
             raise Unsupported("struct %s has no modelled field %r" % (getattr(base.cls, "__name__", base.cls), attr))
+        if isinstance(base, VObj) and isinstance(base.cls, MapCls) and attr in ("items", "keys", "values", "get"):
+            return VBound(base, "hmap." + attr)
         if isinstance(base, VObj):
             if attr in self.registry.field_types and (
                 attr in self.registry.class_fields.get(base.cls, ()) or base.cls not in self.registry.class_fields
@@ -890,8 +892,18 @@ class Interp(Engine):
         sig_names = {a.arg for a in src.node.args.posonlyargs + src.node.args.args + src.node.args.kwonlyargs}
         ghost_syms = []
         vt0 = next(iter(c.variants.values()), {})
+        bound_ghosts = getattr(self.contract, "ghost_args", {}).get(c.key, {})
         for gname, gT in vt0.items():
             if gname not in sig_names and gname not in env:
+                if gname in bound_ghosts:
+                    # the caller's contract instantiates the callee's (universally quantified) ghost parameter with a term of its own
+                    saved_ic = self.in_clause
+                    self.in_clause = True
+                    try:
+                        env[gname] = self.eval_clause(bound_ghosts[gname])
+                    finally:
+                        self.in_clause = saved_ic
+                    continue
                 gv = self.fresh(gT, "%s.ghost.%s" % (c.key, gname))
                 env[gname] = gv
                 if isinstance(gv, VInt):
@@ -916,7 +928,10 @@ class Interp(Engine):
                         vt = cand
                         break
                 if vt is None:
-                    raise Unsupported("no verified variant of %s matches the argument kinds at this call" % c.key)
+                    bad = []
+                    for vname, cand in c.variants.items():
+                        bad.append("%s: %s" % (vname, ["%s:%s" % (pn, code_env[pn]) for pn, pT in cand.items() if pn in code_env and not self.kind_matches(code_env[pn], pT)]))
+                    raise Unsupported("no verified variant of %s matches the argument kinds at this call (mismatches: %s)" % (c.key, "; ".join(bad)[:1500]))
                 for pname, pT in (vt or {}).items():
                     if pname in code_env:
                         cond = self.conforms(code_env[pname], pT)
@@ -983,6 +998,8 @@ class Interp(Engine):
                 for gname, gT in c.ghost_results.items():
                     env[gname] = self.fresh(gT, "%s.%s" % (c.key, gname))
                 for cl in c.ensures:
+                    if cl.startswith("lemma:"):
+                        continue   # proof steps of the callee's own proof, not part of its interface
                     t = self.truth(self.eval_clause(cl))
                     if ghost_syms:
                         from z3 import z3util
@@ -1019,6 +1036,9 @@ class Interp(Engine):
         if isinstance(T_, (TObj, TMap)):
             return isinstance(v, VObj)
         if isinstance(T_, TStruct):
+            if isinstance(v, VTuple) and v.cls is not None and all(f in getattr(v.cls, "_fields", ()) for f in T_.fields):
+                # duck-typed record (e.g. Shape4D passed where a Block was verified): the callee only reads the declared fields
+                return True
             return isinstance(v, VStruct)
         if isinstance(T_, TTuple):
             return isinstance(v, VTuple) and len(v.items) == len(T_.items)
@@ -1273,6 +1293,23 @@ class Interp(Engine):
                             return VInt(i)
                     raise PyRaise(ValueError, "not in list", self.cur_line)
             raise Unsupported("list.%s" % m)
+        if name.startswith("hmap."):
+            m = name[5:]
+            if m == "get":
+                got = self.map_get(selfv, args[0])
+                if len(args) > 1:
+                    return self.ite(got.is_none, args[1], got.val) if isinstance(got, VOpt) else got
+                return got
+            items = self.map_items(selfv)
+            if m == "items":
+                return items
+            st = self._lst(items)
+            loc = self.new_loc()
+            if m == "keys":
+                self.lists[loc] = ["sym", st[1], [st[2][0]], PyInt]
+            else:
+                self.lists[loc] = ["sym", st[1], list(st[2][1:]), selfv.cls.valT]
+            return VList(loc)
         if name.startswith("dict."):
             m = name[5:]
             d = selfv.d
@@ -1330,7 +1367,7 @@ class Interp(Engine):
             self.sh.dropped = getattr(self.sh, "dropped", set())
             self.sh.dropped.add((node.lineno, type(node).__name__))
             return
-        if self.contract.hints and self.call_depth == 0:
+        if self.contract.hints and self.call_depth == 0 and not getattr(self.sh, "refute_bound", 0):
             try:
                 first = ast.unparse(node).splitlines()[0].strip()
             except Exception:
@@ -1548,6 +1585,8 @@ class Interp(Engine):
         if fr.src is None:
             return None, None
         o = fr.src.loop_ord.get(id(node))
+        if getattr(self.sh, "refute_bound", 0):
+            return o, None      # bounded refutation: loops are executed (up to the bound), invariants play no role
         if self.call_depth == 0:
             return o, self.contract.loops.get(o)
         # inlined callee: its own contract's loop specs apply
@@ -2476,6 +2515,14 @@ def _forall_int(self, args, kw):
     if extra:
         self.assume(z3.ForAll([j], z3.And(extra)))
     return VBool(z3.ForAll([j], body))
+
+
+@builtin(_c.items_of)
+def _items_of(self, args, kw):
+    m = self.force(args[0])
+    if isinstance(m, VObj) and isinstance(m.cls, MapCls):
+        return self.map_items(m)
+    raise Unsupported("items_of on %r" % (m,))
 
 
 @builtin(_c.enum_key)
